@@ -405,9 +405,25 @@ def replay_rel(fn, tname):
                 k = (model_float(model, 'kappa', 3.0) or 3.0) ** 2
                 if abs(k - 1) < 1e-6:
                     k = 9.0
-                b = dict(a, rhol=a['rhol'] * k, rhor=a['rhor'] * k,
-                         pl=a['pl'] * k, pr=a['pr'] * k)
-                exp = lambda r: (r[0], r[1] * k, r[2])
+                b = None
+                # also powers of two far from 1 (exact in floating point)
+                for k in (k, 2.0 ** -20, 2.0 ** -34, 2.0 ** 20):
+                    b = dict(a, rhol=a['rhol'] * k, rhor=a['rhor'] * k,
+                             pl=a['pl'] * k, pr=a['pr'] * k)
+                    r1, r2 = _call(fn, a, 20, 1e-6), _call(fn, b, 20, 1e-6)
+                    if r1 is None or r2 is None or r1[0] != 0:
+                        continue
+                    if min(r1[1], r2[1]) <= 1e-24:
+                        continue        # known absolute floor
+                    e = (r1[0], r1[1] * k, r1[2])
+                    if e[0] != r2[0] or any(
+                            abs(x - y) > 1e-5 * (abs(x) + abs(y)) + 1e-300
+                            for x, y in zip(e[1:], r2[1:])):
+                        return dict(reproduced=True, target=fn,
+                                    transform=tname, inputs=a, k=k,
+                                    transformed=b, run1=r1, run2=r2,
+                                    expected_run2=e)
+                continue
             r1, r2 = _call(fn, a), _call(fn, b)
             if r1 is None or r2 is None:
                 continue
